@@ -68,8 +68,7 @@ Proof.
     assert (Hi : nrn_inv RN Neuron.LIF
                    (fst (run (nrn_step RN Neuron.LIF nv_params) (Neuron.init RN Neuron.LIF nv_params 2 1)
                              [Neuron.OpTrain false; Neuron.OpClear false]))).
-    { apply (Checkpoint.run_inv (nrn_step RN Neuron.LIF nv_params) (nrn_inv RN Neuron.LIF)
-               (nrn_step_inv RN Neuron.LIF nv_params)). apply nrn_init_inv. }
+    { apply nrn_run_inv; [|apply nrn_init_inv]. repeat constructor. }
     split; [exact Hc|]. split; [|split; [exact (neuron_load_save RN Neuron.LIF _ _ Hi Hc)|vm_compute; reflexivity]].
     intros E. apply (f_equal (fun s => match Neuron.cols RN s with c :: _ => match Neuron.cells RN c with (v, _) :: _ => v | _ => 0 end | _ => 0 end)) in E.
     vm_compute in E. lra.
